@@ -393,7 +393,7 @@ def run(run):
         run.count("embedded_class_comparisons")
     side_dir = common.scratch_dir("bvf_c20b_")
     nfam = 450 if run.tier == "quick" else 2000
-    profile = {"p_local_classes": 0.4, "p_instance_proto": 0.5, "p_move": 0.35, "p_class_align": 0.15, "p_describe": 0.25, "allow_regex_nokeep_single": False,
+    profile = {"p_local_classes": 0.4, "p_underscore_names": 0.2, "p_instance_proto": 0.5, "p_move": 0.35, "p_class_align": 0.15, "p_describe": 0.25, "allow_regex_nokeep_single": False,
                "kinds": {"int": 34, "data": 22, "bits": 8, "ref": 16, "sel": 8, "em": 8}, "p_backward_at": 0.05}
     if run.tier == "thorough":
         profile["max_depth"] = 4
